@@ -18,11 +18,12 @@ def gen_index(rng, n, kinds=None):
     if k == "slice":
         def bound():
             return rng.choice([None, rng.randint(-n - 1, n + 1)])
-        return {"slice": [bound(), bound(), rng.choice([None, 1, 2, 3, n, n + 1])]}
+        return {"slice": [bound(), bound(), rng.choice([None, 1, 2, 3, 5, max(n // 2, 1),
+                                                         max(n - 1, 1), n, n + 1])]}
     if k == "negstep":
         def bound():
             return rng.choice([None, rng.randint(-n - 1, n + 1)])
-        return {"slice": [bound(), bound(), -rng.choice([1, 1, 2, 3, n + 1])]}
+        return {"slice": [bound(), bound(), -rng.choice([1, 1, 2, 3, 5, max(n // 2, 1), n + 1])]}
     if k == "emptyslice":
         a = rng.randint(0, n)
         return {"slice": [a, rng.randint(0, a), rng.choice([None, 1, 2])]}
